@@ -29,7 +29,8 @@ REQUIRED = ['quota_textbook_hare', 'quota_textbook_hagenbach_bischoff', 'quota_t
             'quota_textbook_hagenbach_bischoff_ceil', 'quota_round_half_up', 'quota_textbook_hare_rounded',
             'quota_textbook_hagenbach_bischoff_rounded', 'quota_droop_pos', 'quota_droop_least',
             'qd_whole_quotas', 'wholeSel_get', 'qd_no_overaward', 'qd_policy_error', 'qd_policy_ignore',
-            'qd_policy_subtract_total', 'qd_policy_honoured', 'qd_errors', 'qd_subtract_step', 'qd_subtract_empty',
+            'qd_policy_subtract_total', 'qd_policy_honoured', 'qd_refuses_nonpositive_quota', 'qd_errors', 'lr_errors',
+            'qd_error_iff', 'qd_subtract_step', 'qd_subtract_empty',
             'lr_whole_then_remainders', 'lr_floor_plus_01', 'lr_extra_only_eligible', 'lr_largest_remainders',
             'lr_tie_shape', 'lr_tie_seats', 'lr_total', 'lr_short', 'lr_no_remainder_seats', 'lr_policy_error',
             'lr_policy_ignore', 'lr_policy_subtract', 'lr_total_exact', 'lr_total_hare', 'lr_total_hagenbach_bischoff',
@@ -41,7 +42,7 @@ REQUIRED_COUNTERS = ['policy_error', 'policy_ignore', 'policy_subtract', 'subtra
                      'cap_remainder_only', 'remainder_tie', 'accept_equal_edge', 'overaward_imperiali',
                      'overaward_hagenbach_bischoff', 'whole_exceeds_house', 'prev_nonzero', 'prev_other_party',
                      'constant_quota', 'beyond_2^53', 'fraction_votes', 'remainder_short', 'quota_fn',
-                     'quota_half', 'lr_plain', 'qd_plain', 'zero_vote_party']
+                     'quota_half', 'lr_plain', 'qd_plain', 'zero_vote_party', 'nonpositive_quota']
 
 
 # ------------------------------------------------------------------------------------------------
@@ -81,6 +82,8 @@ class Spec:
         self.total_votes = sum(self.v.values())
         self.in_scope = self.total_votes > 0 and self.n >= 1 and all(x >= 0 for x in self.v.values())
         self.q = textbook_quota(case['quota'], self.total_votes, self.n) if self.n >= 1 else None
+        self.nonpositive_quota = (self.q is not None and self.q <= 0 and self.total_votes > 0 and self.n >= 1
+                                  and all(x >= 0 for x in self.v.values()))
         if self.q is None or self.q <= 0:
             self.in_scope = False
             return
@@ -225,6 +228,10 @@ def oracle(case, obs):
         return [] if obs == want else [('quota_textbook', f'{case["quota"]}({case["total"]}, {case["n"]}) = {obs}, textbook {want}')]
     sp = Spec(case)
     if not sp.in_scope:
+        # outside the quantifier (the quota is not positive): nothing is specified about seats, but a refusal has to
+        # be the declared one (repair eca6e34: VotingSystemError instead of ZeroDivisionError)
+        if sp.nonpositive_quota and isinstance(obs, dict) and obs.get('err') != 'VotingSystemError':
+            return [('raises:' + str(obs.get('err')), 'non-positive quota: only VotingSystemError is a declared refusal')]
         return []
     is_err = isinstance(obs, dict)
     out = []
@@ -292,7 +299,9 @@ def signature(case, clause):
     if case['op'] == 'quota':
         return f"quota:{clause}"
     sp = Spec(case)
-    c = sp.cls() if sp.in_scope else 'out_of_scope'
+    if not sp.in_scope:
+        return f"{case['op']}:nonpositive_quota:raises" if clause.startswith('raises:') else f"{case['op']}:out_of_scope:{clause}"
+    c = sp.cls()
     if c == 'plain':
         if case['quota'].startswith('const:') and clause == 'raises:AttributeError':
             return f"{case['op']}:constant_quota:{clause}"
@@ -497,6 +506,9 @@ def _directed(rng, k):
     # fewer eligible parties than remainder seats
     yield _mk('lr', [3], 10, 'droop', ae, pol)
     yield _mk('lr', [2, 1], 9, 'droop', ae, pol)
+    # a quota that rounds to zero: votes fewer than half the seats
+    yield _mk(op, [rng.choice([1, 2])], rng.randint(5, 9), 'hare_rounded', ae, pol)
+    yield _mk(op, [1, 0, 1], rng.randint(6, 9), 'hagenbach_bischoff_rounded', ae, pol)
     # fractions, zero-vote parties
     yield _mk(op, [Fraction(7, 2) * x, Fraction(5, 3) * x, 0, x], rng.randint(2, 6), rng.choice(QUOTAS), ae, pol)
 
@@ -570,7 +582,7 @@ def _tag(c):
     tags = c['_tags']
     sp = Spec(c)
     if not sp.in_scope:
-        tags.append('out_of_scope')
+        tags.append('nonpositive_quota' if sp.nonpositive_quota else 'out_of_scope')
         return c
     cls = sp.cls()
     if any(abs(x) > 2 ** 53 for x in sp.v.values()):
